@@ -14,6 +14,14 @@ CHECKS = {
          "dns::Socket with 0-3 servers and 1-3 concurrent queries (A/AAAA, mDNS) against a scripted resolver whose responses have exactly one matching attribute wrong (source address/port, destination port, txid, question name/type), CNAME chains in/out of order, compression pointers (backward/forward/self/loop/out of range), truncation; time moves only to poll_at. Oracle: results only from a fully matching response and a subset of what a reference resolver extracts from it; every query completes within 20 s x servers (+slack); retransmissions repeat the question; no panic, no hang (watchdog). 11 mutants killed (sub-agent report).",
          "Statement read permissively (case-insensitive names, any source from port 5353, QR/opcode/rcode not matching attributes); head-of-line blocking behind an unreachable server is counted, not flagged (time stays bounded).",
          "DESIGN.md 3/C19"),
+ "C01": ("model-based PBT over a simulated two-node world with generated per-frame fault schedule (stream-prefix oracle)",
+         "Two real smoltcp endpoints (buffers 1..262144, MTU from the minimum, CC none/Reno/CUBIC, delayed ACK/Nagle/timestamps, ISNs steered to wrap points, IPv4/IPv6, raw-IP/Ethernet) exchange PRF streams in both directions over a link that drops/duplicates/delays/reorders/bit-flips for the whole run; at every recv the bytes received must be a prefix of what the peer wrote so far, Finished only after everything written before close. Random exploration of fault schedules and configurations; capped at 20000 events per case.",
+         "Bit flips confined to regions where the Internet checksum guarantees detection; PRF stream contents; virtual time owned by the harness.",
+         "DESIGN.md 3/C01"),
+ "C02": ("invariant + deadlock/livelock detection in a closed simulated world driven only by poll_at, frame arrival and API calls",
+         "The C01 world with faults confined to a finite prefix of frames; both applications write, read with pauses (zero windows) and close. After every poll: unacked data/SYN/FIN implies finite Interface::poll_at. The world may never go quiescent before transfer and shutdown complete (exact deadlock detection, no wall-clock timeout), and no 30 virtual minutes without application progress once the link is reliable (classified by which side ignores ACKs). One open known finding (mutual retransmission livelock); five stall root causes fixed.",
+         "The harness owns clock and schedule; cap hits with recent progress are inconclusive, never violations; applications read out remaining data as soon as the connection is over.",
+         "DESIGN.md 3/C02"),
  "C04": ("model-based PBT: scripted TCP peer vs reference receiver, independent TCP codec",
          "One socket is fed up to 200 generated segments placed around its advertised window by a scripted peer owning a fixed stream; a reference receiver built from the delivered segments and the windows read off the socket's own output checks: delivered bytes = stream prefix, no byte delivered that never arrived below the advertised edge, ACK never covers unreceived bytes/FIN, Finished only after all data, advertised edge within buffer. Exploration by random search with boundary-biased generators; no exhaustiveness claimed.",
          "Trusts vkit::indep TCP/IP codec; 'arrived in window' is a necessary condition only; peer never resets.",
